@@ -6,6 +6,7 @@ package main
 // observation through probe(); the reference computes what Go itself yields for the same operation.
 
 import (
+	"math"
 	"encoding/json"
 	"fmt"
 	"os"
@@ -407,7 +408,10 @@ type c10Problem struct {
 	History string `json:"history"`
 }
 
-func c10ProjT(x interface{}) string {
+func c10ProjT(x interface{}) string { return c10ProjWith(x, false) }
+
+// c10ProjWith: floatBits prints floats by their bit pattern (for comparisons with the Coq model, which has no float printer)
+func c10ProjWith(x interface{}, floatBits bool) string {
 	if x == nil {
 		return "nil"
 	}
@@ -419,27 +423,35 @@ func c10ProjT(x interface{}) string {
 	case reflect.Slice:
 		var p []string
 		for i := 0; i < rv.Len(); i++ {
-			p = append(p, c10ProjT(rv.Index(i).Interface()))
+			p = append(p, c10ProjWith(rv.Index(i).Interface(), floatBits))
 		}
 		return rv.Type().String() + "[" + strings.Join(p, ",") + "]"
 	case reflect.Map:
 		var p []string
 		for _, k := range rv.MapKeys() {
-			p = append(p, c10ProjT(k.Interface())+"=>"+c10ProjT(rv.MapIndex(k).Interface()))
+			p = append(p, c10ProjWith(k.Interface(), floatBits)+"=>"+c10ProjWith(rv.MapIndex(k).Interface(), floatBits))
 		}
 		sort.Strings(p)
 		return rv.Type().String() + "{" + strings.Join(p, ",") + "}"
 	case reflect.Struct:
 		var p []string
 		for i := 0; i < rv.NumField(); i++ {
-			p = append(p, rv.Type().Field(i).Name+":"+c10ProjT(rv.Field(i).Interface()))
+			p = append(p, rv.Type().Field(i).Name+":"+c10ProjWith(rv.Field(i).Interface(), floatBits))
 		}
 		return "struct{" + strings.Join(p, ",") + "}"
 	case reflect.Ptr:
 		if rv.IsNil() {
 			return "nilptr"
 		}
-		return "&" + c10ProjT(rv.Elem().Interface())
+		return "&" + c10ProjWith(rv.Elem().Interface(), floatBits)
+	}
+	if floatBits {
+		switch f := x.(type) {
+		case float64:
+			return fmt.Sprintf("float64:b%d", math.Float64bits(f))
+		case float32:
+			return fmt.Sprintf("float32:b%d", math.Float32bits(f))
+		}
 	}
 	return fmt.Sprintf("%s:%v", rv.Type(), x)
 }
@@ -694,10 +706,12 @@ func c10Struct(rnd *Rand) (string, []string, []string) {
 	return strings.Join(lines, "\n"), want, descr
 }
 
-func c10RunTyped(src string) []string {
+func c10RunTyped(src string) []string { return c10RunTypedWith(src, false) }
+
+func c10RunTypedWith(src string, floatBits bool) []string {
 	e := env.NewEnv()
 	var trace []string
-	e.Define("probe", func(x interface{}) interface{} { trace = append(trace, "("+c10ProjT(x)+")"); return x })
+	e.Define("probe", func(x interface{}) interface{} { trace = append(trace, "("+c10ProjWith(x, floatBits)+")"); return x })
 	e.DefineType("int8", int8(0))
 	e.DefineType("uint8", uint8(0))
 	e.DefineType("uint16", uint16(0))
